@@ -39,9 +39,10 @@ META = {
     "bounds": "input: every finite IEEE double v (negative, zero, subnormal, "
               "huge) whose scaled value 2**n_frac * v is a finite double, as "
               "one symbolic Float64; formats (structural, one unit each): "
-              "quick n_bits in {8,16,32,64} x signed/unsigned x n_frac in "
-              "{0, n_bits/2, n_bits-1}; thorough every n_frac in 0..n_bits "
-              "for those widths "
+              "quick a spread of 16 (signedness, n_bits in {8,16,32,64}, "
+              "n_frac) combinations; thorough every n_frac in 0..n_bits for "
+              "8, 16 and 32 bits and 18 n_frac values (0, 1, 4, 8, 11, 16, "
+              "24, 31-33, 40, 48, 52, 53, 56, 62-64) for 64 bits "
               "and, for the scalar functions only, every other n_bits in "
               "1..24 with n_frac in {0, 1, n_bits/2, n_bits-1, n_bits}; "
               "fixed-point values q: every integer of the format "
@@ -1089,7 +1090,11 @@ def _formats(tier):
     out = []
     for n in (64, 32, 16, 8):
         if tier == "thorough":
-            fr = list(range(n, -1, -1))
+            # every n_frac for the narrower widths; for 64 bits (the
+            # slowest queries) a spread that keeps the boundary formats
+            fr = (list(range(n, -1, -1)) if n < 64 else
+                  [64, 63, 62, 56, 53, 52, 48, 40, 33, 32, 31, 24, 16, 11, 8,
+                   4, 1, 0])
             pairs = [(s, f) for f in fr for s in (True, False)]
         elif n == 8:
             pairs = [(s, f) for f in (7, 4, 0) for s in (True, False)]
